@@ -272,6 +272,23 @@ def run(tier):
     ck.log("constants: %d programs compared, %d problems" % (ccmp, cmism))
     from . import c12
     c12.check_leaks(ck)
+    # structures of one name in two modules (each private): every module's size-of is that of its own structure
+    # (the unchanged compiler aborts in LLVM's verifier on these - C02's listed D58 -; when it does not, the sizes count)
+    ssets = []
+    for si, (b1, b2, want) in enumerate([("tag: u8,", "id: i64,\n\tweight: i64,\n\ttag: u8,", "24 24 72"), ("a: i64,\n\tb: i64,", "x: u8,", "1 1 3"), ("a: i32,", "a: i32,\n\tb: i32,", "8 8 24")]):
+        lib = "struct Item\n{\n\t%s\n}\npub fn lib_size() -> usize\n{\n\treturn: |:Item|\n}\n" % b1
+        main_ = "import \"shapes.pn\";\nstruct Item\n{\n\t%s\n}\nconst SIZE_OF_ITEM: usize = |:Item|;\nfn main() -> u8\n{\n\tprint!(|:Item|, \" \", SIZE_OF_ITEM, \" \", |:[3]Item|, \"\\n\");\n\treturn: 0\n}\n" % b2
+        for order in (0, 1):
+            mods = [("shapes.pn", lib), ("main.pn", main_)]
+            if order: mods.reverse()
+            ssets.append(("ss%d.%d" % (si, order), "".join("//// module %s\n%s" % m for m in mods), want))
+    simpl = C.run_harness("exec", [(x[0], x[1]) for x in ssets], ck.work + "/samename", timeout=600)
+    for cid, src, want in ssets:
+        f = simpl.get(cid, ["missing"])
+        if not f[0].startswith("ok"): continue
+        got = C.unesc(f[1].split(" out=", 1)[1].split(" stderr=")[0]).decode(errors="replace").strip() if " out=" in f[1] else "?"
+        if got != want:
+            ck.violation("wrong-sizeof:structure-of-another-module", "size-of of a structure that shares its name with a private structure of another module prints `%s`, its own layout gives `%s`" % (got, want), src)
     if not proof_ok:
         ck.violation("tie-broken:proof", "Props/C10.v no longer checks", getattr(ck, "proof_output", "")[-2000:])
     ck.coverage.update(
